@@ -1081,16 +1081,10 @@ func cellValue(v ssa.Value) ssa.Value {
 	if !ok {
 		return nil
 	}
-	var stored ssa.Value
-	n := 0
-	for _, r := range *a.Referrers() {
-		if st, ok := r.(*ssa.Store); ok && st.Addr == a {
-			stored = st.Val
-			n++
-		}
-	}
-	if n == 1 {
-		return stored
+	// exactly one store anywhere (the variable's own function and the closures capturing it)
+	sts := storesToCell(a)
+	if len(sts) == 1 {
+		return sts[0].Val
 	}
 	return nil
 }
@@ -1325,8 +1319,13 @@ func flipTok(t token.Token) token.Token {
 // intFacts collects comparisons with integer constants known to hold at
 // `at` about values identified by same().
 func intFacts(at ssa.Instruction, same func(ssa.Value) bool) []intFact {
+	return intFactsOf(dominatingConds(at.Block()), same)
+}
+
+// intFactsOf: the same over an explicit list of condition edges.
+func intFactsOf(conds []condEdge, same func(ssa.Value) bool) []intFact {
 	var out []intFact
-	for _, ce := range dominatingConds(at.Block()) {
+	for _, ce := range conds {
 		cm, ok := ce.asCmp()
 		if !ok {
 			continue
@@ -1815,4 +1814,33 @@ func constStringDeep(v ssa.Value) (string, bool) {
 		}
 	}
 	return "", false
+}
+
+// valCase is one value an expression can have together with the branch conditions known when it has it. A value that
+// is a merge (phi) - possibly behind single-assignment local cells - is split into one case per incoming edge, so that
+// "the new state is computed by a pure function and stored once" reads like "one store per outcome".
+type valCase struct {
+	val   ssa.Value
+	conds []condEdge
+}
+
+func valueCases(v ssa.Value, at *ssa.BasicBlock) []valCase {
+	var out []valCase
+	var expand func(v ssa.Value, conds []condEdge, depth int)
+	expand = func(v ssa.Value, conds []condEdge, depth int) {
+		if depth < 6 && len(out) < 64 {
+			r := resolve(v)
+			if phi, ok := r.(*ssa.Phi); ok {
+				for i, pred := range phi.Block().Preds {
+					ec := append(append(append([]condEdge{}, dominatingConds(pred)...), edgeCond(pred, phi.Block())...), conds...)
+					expand(phi.Edges[i], ec, depth+1)
+				}
+				return
+			}
+			v = r
+		}
+		out = append(out, valCase{v, conds})
+	}
+	expand(v, dominatingConds(at), 0)
+	return out
 }
